@@ -416,7 +416,7 @@ func poolSC(t *testing.T, rep *vx.Report, deadline time.Time) bool {
 			continue
 		}
 		completed := -1
-		var total int64
+		var total, points int64
 		outcomes := map[string]int64{}
 		nonlin := 0
 		for _, b := range bounds {
@@ -454,7 +454,8 @@ func poolSC(t *testing.T, rep *vx.Report, deadline time.Time) bool {
 			}
 			completed = b
 		}
-		rep.Count(total, int64(len(outcomes)), 0, 0)
+		// stateless search: states = distinct terminal outcomes, transitions = scheduling decisions taken
+		rep.Count(total, int64(len(outcomes)), int64(len(outcomes)), points)
 		rep.Set("pool_sc_"+sc.Name, map[string]any{
 			"threads": sc.Threads, "init": sc.Init, "advance": sc.Advance,
 			"preemption_bound_completed": completed, "executions_at_last_bound": total,
